@@ -319,7 +319,13 @@ pub fn check_program(db: &Db, prog: &Program, insts: &[Inst]) -> Outcome {
         } else {
             for (k, c) in final_frame.cols.iter().enumerate() {
                 if let Some(n) = &c.name {
-                    if &names[k] != n {
+                    // SQLite labels the second of two same-named columns coming out of a sub-query `name:1`
+                    // (standard SQL keeps the name): such a label names the column it repeats
+                    let label = match names[k].rsplit_once(':') {
+                        Some((base, suffix)) if !suffix.is_empty() && suffix.chars().all(|c| c.is_ascii_digit()) => base,
+                        _ => names[k].as_str(),
+                    };
+                    if label != n {
                         out.findings.push(Finding {
                             kind: Kind::Names,
                             dialect: dn.clone(),
